@@ -25,35 +25,91 @@ func runC07(c *an.Ctx) {
 
 func r07a(c *an.Ctx) {
 	c.Rule("R07a", "ConsulSource.GetNextUInt32: consistent Get, single increment, CAS on the pair read, refused CAS is an error, no Put", 1)
-	fn := c.MustFn("configuration/cfgbackend", "ConsulSource.GetNextUInt32")
-	if fn == nil {
+	entry := c.MustFn("configuration/cfgbackend", "ConsulSource.GetNextUInt32")
+	if entry == nil {
 		return
+	}
+	// the function that performs the compare-and-set (the entry point itself, or a helper it delegates to)
+	fn := entry
+	if len(an.CallsSuffix(entry, "consul/api.KV).CAS")) == 0 {
+		for _, ci := range an.Calls(entry, func(n string, ci ssa.CallInstruction) bool { return ci.Common().StaticCallee() != nil }) {
+			cal := ci.Common().StaticCallee()
+			if cal.Pkg == entry.Pkg && len(an.CallsSuffix(cal, "consul/api.KV).CAS")) > 0 {
+				fn = cal
+				c.Mark(fn)
+			}
+		}
+		// the wrapper only hands back what the helper returned
+		okWrap := fn != entry
+		for _, ret := range an.Returns(entry) {
+			for i := range ret.Results {
+				fromHelper := false
+				zero := false
+				seen := map[ssa.Value]bool{}
+				var walk func(v ssa.Value)
+				walk = func(v ssa.Value) {
+					if v == nil || seen[v] {
+						return
+					}
+					seen[v] = true
+					switch x := v.(type) {
+					case *ssa.Phi:
+						for _, e := range x.Edges {
+							walk(e)
+						}
+					case *ssa.Extract:
+						if call, ok := x.Tuple.(*ssa.Call); ok && call.Call.StaticCallee() == fn {
+							fromHelper = true
+						}
+					case *ssa.Const:
+						zero = true
+					default:
+						okWrap = false
+					}
+				}
+				walk(an.RetVal(ret, i))
+				if !fromHelper && !zero {
+					okWrap = false
+				}
+			}
+		}
+		c.Ob("(*configuration/cfgbackend.ConsulSource).GetNextUInt32|delegates", entry.Pos(), okWrap, "GetNextUInt32 delegates the compare-and-set to a helper; it must return exactly what the helper returned")
 	}
 	c.Subject()
 	key := "(*configuration/cfgbackend.ConsulSource).GetNextUInt32"
 	gets := an.CallsSuffix(fn, "consul/api.KV).Get")
 	cass := an.CallsSuffix(fn, "consul/api.KV).CAS")
 	puts := an.CallsSuffix(fn, "consul/api.KV).Put")
-	if len(gets) != 1 || len(cass) != 1 {
-		c.Ob(key+"|get-cas", fn.Pos(), false, "expected exactly one KV.Get and one KV.CAS (found %d/%d)", len(gets), len(cass))
+	if len(gets) < 1 || len(cass) < 1 {
+		c.Ob(key+"|get-cas", fn.Pos(), false, "expected a KV.Get and a KV.CAS (found %d/%d)", len(gets), len(cass))
 		return
 	}
 	c.Ob(key+"|no-put", fn.Pos(), len(puts) == 0, "the counter must never be written with an unconditional Put")
+	isGet := map[ssa.Value]bool{}
+	for _, g := range gets {
+		isGet[g.(*ssa.Call)] = true
+	}
 	get := gets[0].(*ssa.Call)
 	cas := cass[0].(*ssa.Call)
-	// consistent read
-	consistent := false
-	if al, ok := get.Call.Args[2].(*ssa.Alloc); ok && al.Referrers() != nil {
-		for _, r := range *al.Referrers() {
-			if fa, ok := r.(*ssa.FieldAddr); ok && isFieldNamed(fa, "RequireConsistent") && fa.Referrers() != nil {
-				for _, rr := range *fa.Referrers() {
-					if st, ok := rr.(*ssa.Store); ok {
-						if cst, ok := st.Val.(*ssa.Const); ok && cst.Value != nil && cst.Value.String() == "true" {
-							consistent = true
+	// consistent read (every Get)
+	consistent := true
+	for _, g := range gets {
+		okG := false
+		if al, ok := g.Common().Args[2].(*ssa.Alloc); ok && al.Referrers() != nil {
+			for _, r := range *al.Referrers() {
+				if fa, ok := r.(*ssa.FieldAddr); ok && isFieldNamed(fa, "RequireConsistent") && fa.Referrers() != nil {
+					for _, rr := range *fa.Referrers() {
+						if st, ok := rr.(*ssa.Store); ok {
+							if cst, ok := st.Val.(*ssa.Const); ok && cst.Value != nil && cst.Value.String() == "true" {
+								okG = true
+							}
 						}
 					}
 				}
 			}
+		}
+		if !okG {
+			consistent = false
 		}
 	}
 	c.Ob(key+"|consistent-read", get.Pos(), consistent, "the counter must be read with RequireConsistent: true (a stale read makes the CAS fail needlessly or, with a stale index, succeed wrongly)")
@@ -73,7 +129,7 @@ func r07a(c *an.Ctx) {
 				chk(e)
 			}
 		case *ssa.Extract:
-			if x.Tuple != ssa.Value(get) || x.Index != 0 {
+			if !isGet[x.Tuple] || x.Index != 0 {
 				okPair = false
 				why = append(why, "pair from another call")
 			}
@@ -82,7 +138,7 @@ func r07a(c *an.Ctx) {
 			nilKnown := false
 			for _, a := range an.Atoms(x.Block()) {
 				if a.Op == token.EQL && a.Y != nil && an.IsNilConst(a.Y) {
-					if ex, ok := a.X.(*ssa.Extract); ok && ex.Tuple == ssa.Value(get) && ex.Index == 0 {
+					if ex, ok := a.X.(*ssa.Extract); ok && isGet[ex.Tuple] && ex.Index == 0 {
 						nilKnown = true
 					}
 				}
@@ -120,7 +176,9 @@ func r07a(c *an.Ctx) {
 			why = append(why, "pair of unknown provenance")
 		}
 	}
-	chk(cas.Call.Args[1])
+	for _, cs := range cass {
+		chk(cs.Common().Args[1])
+	}
 	// no store to ModifyIndex of the read pair anywhere
 	an.Instrs(fn, func(in ssa.Instruction) {
 		st, ok := in.(*ssa.Store)
